@@ -16,7 +16,7 @@ import (
 
 func init() {
 	streams["ALIAS"] = streamAlias
-	streamRules["ALIAS"] = "Go-side only (no model ops): inputs of BUILDER/SPARSE/COMPACT laid out as views into ONE contiguous buffer with spare capacity behind every slice; byte snapshot of the whole buffer before/after every read-only entry point (ParseBlobs, ParseTxs, ParseShares, Sequence.RawData, range lookup, Deconstruct, WrappedPFBs, accessors, Construct, Build, TxShareRange, BlobShareRange, GenerateSubtreeRoots, CreateCommitment, MarshalBlobTx, Blob.Marshal/ToShares) and of the package-level namespaces; N concurrent readers must return the single-threaded result (run under -race in the thorough tier); non-trivial = distinct layout with a multi-share blob"
+	streamRules["ALIAS"] = "Go-side only (no model ops): inputs of BUILDER/SPARSE/COMPACT laid out as views into ONE contiguous buffer with spare capacity behind every slice; byte snapshot of the whole buffer before/after every read-only entry point (ParseBlobs, ParseTxs, ParseShares, Sequence.RawData, range lookup, Deconstruct, WrappedPFBs, accessors, Construct, Build, TxShareRange, BlobShareRange, GenerateSubtreeRoots, CreateCommitment, MarshalBlobTx, Blob.Marshal/ToShares) and of the package-level namespaces; N concurrent readers must return the single-threaded result (run under -race in the thorough tier); non-trivial = distinct layout with a multi-share blob Added after the seeded rounds: values handed out are mutated and requested again (no hidden shared state), decoding JSON (base64 / array-of-numbers / rejected) into receivers that hold views, snapshots of the caller's outer slice, committing to blobs of 40..300 shares built on views; the race detector runs in both tiers."
 }
 
 // flatten lays the given byte strings out in one buffer; every returned slice has the rest of the
